@@ -1057,6 +1057,13 @@ static void gen_expr(Node *node) {
 
     int sz = node->lhs->ty->base->size;
     println("  xchg %s, (%%rdi)", reg_ax(sz));
+
+    // The upper bits of %rax still hold the new value: extend the old one.
+    char *insn = node->lhs->ty->base->is_unsigned ? "movz" : "movs";
+    if (sz == 1)
+      println("  %sbl %%al, %%eax", insn);
+    else if (sz == 2)
+      println("  %swl %%ax, %%eax", insn);
     return;
   }
   }
